@@ -148,7 +148,17 @@ def to_lean(site, expr, want):
         raise X.TieBroken("guard:" + site, "%s: `%s` left the expression grammar: %s" % (site, expr.strip(), e))
 
 
+VERIF_BLOCK = re.compile(r"^#ifdef NEOLITH_VERIF\n(?:(?!#endif|#ifdef|#if |#ifndef|#else).*\n)*#endif[^\n]*\n", re.M)
+
+
+def strip_hooks(src):
+    """guarded verification hooks (`#ifdef NEOLITH_VERIF` ... `#endif`, add-only, no nesting, no #else) are not part of
+    the code the model mirrors: they are cut out before any pattern is matched"""
+    return VERIF_BLOCK.sub("", src)
+
+
 def func_body(src, header_re, site):
+    src = strip_hooks(src)
     m = re.search(header_re, src)
     if not m:
         raise X.TieBroken("guard:" + site, "cannot locate %s in src/comm.c" % site)
@@ -306,9 +316,11 @@ SHAPES = [
      + r"\}" + WS + r"ip->message_buf\[ip->message_producer\] = \*cp;" + WS + r"ip->message_producer = [^;]+;" + WS
      + r"ip->message_length\+\+;" + WS + r"\}", 1),
     ("add_message.tail", "src/comm.c", "add",
-     r"if \(ip->snoop_by\)" + WS + r"receive_snoop \(data, ip->snoop_by->ob\);" + WS + r"#ifdef FLUSH_OUTPUT_IMMEDIATELY" + WS
-     + r"flush_message \(ip\);" + WS + r"#else" + WS + r"if \(ip == all_users\[0\]\)[^{]*\{" + WS + r"flush_message \(ip\);" + WS + r"\}" + WS
-     + r"else" + WS + r"\{[^}]*async_runtime_modify \(g_runtime, ip->fd, EVENT_READ \| EVENT_WRITE, ip\);", 1),
+     r"#ifdef FLUSH_OUTPUT_IMMEDIATELY" + WS + r"flush_message \(ip\);" + WS + r"#else" + WS
+     + r"if \(ip == all_users\[0\]\)[^{]*\{" + WS + r"flush_message \(ip\);" + WS + r"\}" + WS
+     + r"else" + WS + r"\{[^}]*async_runtime_modify \(g_runtime, ip->fd, EVENT_READ \| EVENT_WRITE, ip\);" + WS + r"\}" + WS + r"#endif" + WS
+     + r"add_message_calls\+\+;" + WS + r"/\*(?:[^*]|\*(?!/))*\*/" + WS
+     + r"if \(ip->snoop_by\)" + WS + r"receive_snoop \(data, ip->snoop_by->ob\);" + WS + r"$", 1),
     ("add_vmessage.broken-break", "src/comm.c", "addv",
      r"if \(!flush_message \(ip\)\)" + WS + r"\{" + WS + r"debug_message \(\"Broken connection during add_message.\\n\"\);" + WS + r"break;", 2),
     ("add_vmessage.tail", "src/comm.c", "addv",
@@ -341,6 +353,24 @@ SHAPES = [
      r"ev.events = events_to_epoll\(events\);" + WS + r"ev.data.ptr = context;[^\n]*" + WS + r"return epoll_ctl\(runtime->epoll_fd, EPOLL_CTL_MOD, fd, &ev\);", 1),
     ("epoll.add", "lib/async/async_runtime_epoll.c", None,
      r"ev.events = events_to_epoll\(events\);" + WS + r"ev.data.ptr = context;" + WS + r"return epoll_ctl\(runtime->epoll_fd, EPOLL_CTL_ADD, fd, &ev\);", 1),
+    # snoop relation, re-entrancy (Multi.lean: dropSnooper, MOp.snoop, reactStep / writeW)
+    ("receive_snoop.body", "src/comm.c", None,
+     r"static void receive_snoop \(char \*buf, object_t \* snooper\) \{(?:\s|/\*[^*]*\*/)*copy_and_push_string \(buf\);" + WS
+     + r"apply \(APPLY_RECEIVE_SNOOP, snooper, 1, ORIGIN_DRIVER\);" + WS + r"\}", 1),
+    ("remove_interactive.snoop-links", "src/comm.c", None,
+     r"if \(ip->snoop_by\)" + WS + r"\{" + WS + r"ip->snoop_by->snoop_on = 0;" + WS + r"ip->snoop_by = 0;" + WS + r"\}" + WS
+     + r"if \(ip->snoop_on\)" + WS + r"\{" + WS + r"ip->snoop_on->snoop_by = 0;" + WS + r"ip->snoop_on = 0;" + WS + r"\}", 1),
+    ("remove_interactive.close-fd", "src/comm.c", None, r"if \(SOCKET_CLOSE \(ip->fd\) == SOCKET_ERROR\)", 1),
+    ("new_set_snoop.loop-guard", "src/comm.c", None,
+     r"for \(tmp = on; tmp; tmp = tmp->snoop_on\)" + WS + r"\{" + WS + r"if \(tmp == by\)" + WS + r"return \(0\);" + WS + r"\}", 1),
+    ("new_set_snoop.relink", "src/comm.c", None,
+     r"if \(by->snoop_on\)" + WS + r"\{" + WS + r"by->snoop_on->snoop_by = 0;" + WS + r"by->snoop_on = 0;" + WS + r"\}" + WS
+     + r"if \(on->snoop_by\)" + WS + r"\{" + WS + r"on->snoop_by->snoop_on = 0;" + WS + r"on->snoop_by = 0;" + WS + r"\}" + WS
+     + r"on->snoop_by = by;" + WS + r"by->snoop_on = on;", 1),
+    ("f_receive", "lib/efuns/interactive.c", None,
+     r"if \(current_object->interactive\)" + WS + r"\{" + WS + r"check_legal_string \(sp->u.string\);" + WS
+     + r"add_message \(current_object, sp->u.string\);", 1),
+    ("tell_object.interactive", "lib/lpc/object.c", None, r"if \(ob->interactive\)" + WS + r"add_message \(ob, str\);", 1),
     ("socket_comm.send-macro", "lib/port/socket_comm.h", None, r"#define SOCKET_SEND\(s, b, l, f\)\s+send\(s, b, l, f\)", 1),
     ("socket_comm.errno-macro", "lib/port/socket_comm.h", None, r"#define SOCKET_ERRNO\s+errno", 1),
 ]
@@ -357,7 +387,7 @@ def shape_checks(read):
     checked site names (written into the Gen file as a comment and into the evidence)"""
     done = []
     for site, path, fn, pat, count in SHAPES:
-        text = read(path)
+        text = strip_hooks(read(path))
         if fn:
             text = func_body(text, HEADERS[fn][0], HEADERS[fn][1])
         n = len(re.findall(pat, text, re.S))
